@@ -144,6 +144,7 @@ class Recorder:
         self.n_filter = 0
         self.n_node = 0
         self.n_global = 0
+        self.n_matter_hits = 0
         del self.node_stack[:]
         del self.filter_stack[:]
         self.cur = None
@@ -260,13 +261,17 @@ class Recorder:
 class RecordingMapping(Mapping):  # type: ignore[type-arg]
     """The global layer of a render: logs every key that reaches it."""
 
-    def __init__(self, data: dict[str, Any], rec: Recorder):
+    def __init__(self, data: Any, rec: Recorder, matter: bool = False):
         self._data = data
         self._rec = rec
+        self._matter = matter
 
     def __getitem__(self, key: Any) -> Any:
         self._rec.on_global(key)
-        return self._data[key]
+        v = self._data[key]
+        if self._matter:
+            self._rec.n_matter_hits += 1  # a global-namespace lookup answered by loader matter
+        return v
 
     def __contains__(self, key: Any) -> bool:
         self._rec.on_global(key)
@@ -568,7 +573,7 @@ def routed_loader(physical: dict[str, str], kind: str) -> Any:
     `route`: targets of include/render are served from 'snippets/' (keyword argument `tag`), and
     only when the caller passed a render context; `route-suspend`: same, async path suspends;
     `relative`: a name is first resolved against the directory of `context.template`."""
-    if not _ROUTED:
+    if "route" not in _ROUTED:
         from liquid2 import DictLoader
         from liquid2.exceptions import TemplateNotFoundError
 
@@ -599,6 +604,58 @@ def routed_loader(physical: dict[str, str], kind: str) -> Any:
     return _ROUTED[kind](physical)
 
 
+MATTER_KINDS = ("matter-dict", "matter-dict-async", "matter-fs", "matter-fromstring")
+RE_FRONT = re.compile(r"\A---\n(.*?)\n---\n", re.S)
+
+
+def matter_loader(kind: str, templates: dict[str, str], matter: dict[str, Any], tmp: str | None) -> Any:
+    """Loaders that pin MATTER to the templates they load (docs/loading_templates.md "Matter"):
+    a dict loader overriding only get_source, one overriding both paths (the async one
+    suspends), and a file system loader that reads JSON front matter (both paths)."""
+    if "matter-dict" not in _ROUTED:
+        import json
+
+        from liquid2 import DictLoader
+        from liquid2 import FileSystemLoader
+        from liquid2.loader import TemplateSource
+
+        class MatterDictLoader(DictLoader):
+            def __init__(self, templates, matter):  # noqa: ANN001, ANN204
+                super().__init__(templates)
+                self.matter = matter
+
+            def get_source(self, env, template_name, *, context=None, **kwargs):  # noqa: ANN001, ANN003, ANN202
+                src = super().get_source(env, template_name, context=context, **kwargs)
+                m = self.matter.get(template_name)
+                return TemplateSource(src.source, src.name, src.uptodate, dict(m) if m else None)
+
+        class MatterDictLoaderAsync(MatterDictLoader):
+            async def get_source_async(self, env, template_name, *, context=None, **kwargs):  # noqa: ANN001, ANN003, ANN202
+                for _ in range(1 + sum(map(ord, template_name)) % 3):
+                    await asyncio.sleep(0)
+                return self.get_source(env, template_name, context=context, **kwargs)
+
+        class FrontMatterFileSystemLoader(FileSystemLoader):
+            @staticmethod
+            def _split(src):  # noqa: ANN001, ANN205
+                m = RE_FRONT.match(src.source)
+                if not m:
+                    return src
+                return TemplateSource(src.source[m.end():], src.name, src.uptodate, json.loads(m.group(1)))
+
+            def get_source(self, env, template_name, *, context=None, **kwargs):  # noqa: ANN001, ANN003, ANN202
+                return self._split(super().get_source(env, template_name, context=context, **kwargs))
+
+            async def get_source_async(self, env, template_name, *, context=None, **kwargs):  # noqa: ANN001, ANN003, ANN202
+                return self._split(await super().get_source_async(env, template_name, context=context, **kwargs))
+
+        _ROUTED.update({"matter-dict": MatterDictLoader, "matter-dict-async": MatterDictLoaderAsync,
+                        "matter-fs": FrontMatterFileSystemLoader})
+    if kind == "matter-fs":
+        return _ROUTED[kind](tmp)
+    return _ROUTED[kind](templates, matter)
+
+
 class Case:
     """A loaded case: environment (dict loader, suspending dict loader or file system
     loader over a scratch directory), root template, name<->source maps."""
@@ -614,21 +671,30 @@ class Case:
         self.dynamic = bool(case.get("dynamic"))
         self.tmp: str | None = None
         kind = case.get("loader") or "dict"
+        self.matter: dict[str, Any] = case.get("matter") or {}
         if kind == "fs" and not self._fs_ok():
             kind = "suspend"
+        if kind == "matter-fs" and not self._fs_ok():
+            kind = "matter-dict-async"
         self.loader_kind = kind
-        if kind == "fs":
+        if kind in ("fs", "matter-fs"):
             self.tmp = tempfile.mkdtemp(prefix="vf-c11-")
             try:
                 for n, src in self.templates.items():
                     fp = os.path.join(self.tmp, *n.split("/"))
                     os.makedirs(os.path.dirname(fp), exist_ok=True)
                     with open(fp, "w", encoding="utf-8", newline="") as f:
+                        if kind == "matter-fs" and self.matter.get(n):
+                            import json
+
+                            f.write("---\n" + json.dumps(self.matter[n]) + "\n---\n")
                         f.write(src)
-            except OSError:
+            except OSError as err:
                 self.close()
-                raise KeyError("cannot lay out the template set as files") from None
-            loader: Any = FileSystemLoader(self.tmp)
+                raise KeyError(f"cannot lay out the template set as files: {err!r}") from None
+            loader: Any = FileSystemLoader(self.tmp) if kind == "fs" else matter_loader(kind, {}, {}, self.tmp)
+        elif kind in ("matter-dict", "matter-dict-async"):
+            loader = matter_loader(kind, self.templates, self.matter, None)
         elif kind == "suspend":
             loader = suspending_loader(self.templates)
         elif kind in ("route", "route-suspend"):
@@ -643,7 +709,13 @@ class Case:
             loader = DictLoader(self.templates)
         try:
             self.env = Environment(loader=loader)
-            self.t = self.env.get_template(self.root)
+            if kind == "matter-fromstring":
+                # the root made from a string with overlay_data=..., partials from a dict loader
+                self.t = self.env.from_string(self.templates[self.root], name=self.root,
+                                              overlay_data=dict(self.matter.get(self.root) or {}))
+            else:
+                self.t = self.env.get_template(self.root)
+            self.root_matter: dict[str, Any] = dict(self.t.overlay_data or {})
         except BaseException:
             self.close()
             raise
@@ -1190,6 +1262,8 @@ class Checker:
                 kind = CL
             elif name not in st.variable_names:
                 kind = "unreported-variable"
+            elif name in cs.root_matter:
+                kind = "matter-name-treated-as-bound"  # loader matter is global data, nothing binds it
             elif name in {t.split(".", 1)[0] for t in cs.templates} - \
                     {t.rsplit("/", 1)[-1].split(".")[0] for t in cs.templates}:
                 kind = "default-alias-derived-from-literal-name"
@@ -1268,10 +1342,15 @@ def _run_case(chk: Checker, case: dict[str, Any], only: str | None, holder: list
         holder.append(cs)
         for src0 in list(cs.templates.values()) + list((case.get("decoys") or {}).values()):
             cs.env.from_string(src0)
-    except LiquidError:
+    except LiquidError as e:
         chk.count("cases_rejected:do-not-parse")
+        if ctx is not None:
+            ctx.note(f"case rejected ({case.get('loader')}): {type(e).__name__}: {str(e)[:200]}")
         return None
-    except KeyError:
+    except KeyError as e:
+        chk.count("cases_rejected:cannot-build")
+        if ctx is not None:
+            ctx.note(f"case rejected ({case.get('loader')}): KeyError: {e} <- {e.__cause__!r} {e.__context__!r}")
         return None
     out: list[tuple[str, str, dict[str, Any]]] = []
     inc = not cs.dynamic
@@ -1298,6 +1377,8 @@ def _run_case(chk: Checker, case: dict[str, Any], only: str | None, holder: list
     if want_async:
         chk.check_async_and_helpers(cs, a, out)
         chk.count("analysis_pairs:" + cs.loader_kind)
+        if cs.root_matter:
+            chk.count("analysis_pairs:root-with-matter")
     binders = set(case.get("binders") or ())
     rec = chk.rec
     chk.case_exec = set()
@@ -1307,7 +1388,10 @@ def _run_case(chk: Checker, case: dict[str, Any], only: str | None, holder: list
         if case.get("modes"):
             mode = case["modes"][i % len(case["modes"])]
         rec.reset()
-        cs.t.overlay_data = RecordingMapping(data, rec)
+        # global chain of the render: render args {} > matter (overlay_data) > template globals;
+        # both lower layers record, so a lookup answered by matter is a global-namespace fact too
+        cs.t.overlay_data = RecordingMapping(cs.root_matter, rec, matter=True)
+        cs.t.global_data = RecordingMapping(data, rec)
         ACTIVE = rec
         status = "ok"
         try:
@@ -1342,6 +1426,7 @@ def _run_case(chk: Checker, case: dict[str, Any], only: str | None, holder: list
             ctx.count("hook:filter_calls", rec.n_filter)
             ctx.count("hook:node_renders", rec.n_node)
             ctx.count("hook:global_layer_hits", rec.n_global)
+            ctx.count("hook:matter_layer_answers", rec.n_matter_hits)
             for (_s, _a, _b, name) in rec.tags:
                 ctx.seen("tags_executed", name)
             for (_s, _a, _b, name) in rec.filters:
